@@ -431,6 +431,13 @@ def h_getattr_name(eng):
             v.store is not ha, v.col("dom") == z3.Select(A0[".dom"], n.t), v.col(".v") == z3.Select(A0["..v"], n.t)))
 
 
+def bounded_random(seed_base, programs):
+    def run(seed):
+        from replay.native import run_native
+        return run_native("c16_random_bounded", {"seed": seed_base + seed, "programs": programs}, timeout=900)
+    return run
+
+
 def harnesses():
     return [
         Harness("State.set", h_set, units=[(ST_PY, "State.set")], replay=replay_set),
@@ -440,4 +447,7 @@ def harnesses():
         Harness("State.exist", h_exist, units=[(ST_PY, "State.exist")]),
         Harness("State.delete", h_delete, units=[(ST_PY, "State.delete"), (ST_PY, "State.set")]),
         Harness("State.getattr", h_getattr_name, units=[(ST_PY, "State.getattr")]),
-    ]
+        Harness("bounded.random-statements", bounded_random(0, 300), units=[(f"{PKG}/eval.py", "AstEval.ast_name"), (f"{PKG}/eval.py", "AstEval.ast_attribute"),
+                (f"{PKG}/eval.py", "AstEval.recurse_assign"), (f"{PKG}/eval.py", "AstEval.ast_delete")], kind="bounded"),
+    ] + [Harness(f"bounded.random-statements[thorough {k}/4]", bounded_random(100 * k, 1000), units=[(f"{PKG}/eval.py", "AstEval.ast_name"), (f"{PKG}/eval.py", "AstEval.ast_attribute"),
+                 (f"{PKG}/eval.py", "AstEval.recurse_assign"), (f"{PKG}/eval.py", "AstEval.ast_delete")], kind="bounded", tier="thorough") for k in range(1, 5)]
